@@ -79,7 +79,8 @@ def shards(tier):
         for first in range(len(IMG_IDS)):
             out.append({'kind': 'parser', 'cfg': pc, 'first': first})
     for pc in range(len(PARSER_CFGS)):
-        out.append({'kind': 'parallel', 'cfg': pc})
+        for first in range(len(IMG_IDS)):
+            out.append({'kind': 'parallel', 'cfg': pc, 'first': first})
     return out
 
 
@@ -99,9 +100,10 @@ def run_shard(shard, ctx, tier):
                 guarded_check(mod, {'parser': shard['cfg'], 'hist': [shard['first']] + list(rest)}, ctx)
     elif shard['kind'] == 'parallel':
         n = len(IMG_IDS)
-        for batch in itertools.product(range(n), repeat=3):
+        for rest in itertools.product(range(n), repeat=2):
+            batch = [shard['first']] + list(rest)
             for assign in itertools.product((0, 1), repeat=3):
-                guarded_check(mod, {'parallel': shard['cfg'], 'batch': list(batch), 'assign': list(assign)}, ctx)
+                guarded_check(mod, {'parallel': shard['cfg'], 'batch': batch, 'assign': list(assign)}, ctx)
     else:
         guarded_check(mod, {'smoke': True}, ctx)
 
